@@ -797,6 +797,10 @@ func (e *Engine) siteAsserts(f *Frame, st *State, kind string, l *Loc, v Val, po
 	}
 	if l.Kind == LElem && l.Note == "" {
 		name = "elem"
+		// a field of a slice element (dpts[i].Count, dpts[i].PositiveBucket.Offset): the innermost field's name
+		if n := len(l.Path); n > 0 && l.Path[n-1].Field >= 0 {
+			name = l.Path[n-1].ST.Field(l.Path[n-1].Field).Name()
+		}
 	}
 	e.siteOrd[kind+" "+name]++
 	ord := e.siteOrd[kind+" "+name]
